@@ -45,13 +45,16 @@ def real_call(scratch, exe, lib, func, args, calls=None):
     shutil.rmtree(d, ignore_errors=True)
     os.makedirs(d)
     lines = ["function __module__"]
-    for lib_, func_, args_ in (calls or [(lib, func, args)]):
+    for call in (calls or [(lib, func, args)]):
+        lib_, func_, args_ = call[:3]
         for a in args_:
             if isinstance(a, tuple):
                 lines.append('\t%s "%s"' % a)
             else:
                 lines.append('\tmake_int "%d"' % a)
         lines.append('\tcall_lib "%s" "%s"' % (lib_, func_))
+        if len(call) > 3 and call[3] == "no-value":
+            continue        # nothing is printed or discarded: what the call left on the operand stack shows in the next print
         lines += ['\tprintn "*"', "\tvoid"]
     lines += ['\tmake_str "after"', '\tprintn "*"', "\tvoid", "\tret_mod", "end", ""]
     src = os.path.join(d, "p.transpiled.mmm")
@@ -81,6 +84,13 @@ def real_suite(scratch, exe, libs):
         runs += 1
         if r["exit"] == 0 or r["panicked"] or needle not in r["stderr"] or "after" in r["stdout"]:
             dev.append((func, "expected a run-time error carrying %r, nothing executed afterwards" % needle, r))
+    # a call that returns no value leaves nothing behind: neither its arguments nor a result (the next print shows the stack)
+    for args in ([], [7], [7, 9]):
+        r = real_call(scratch, exe, None, None, None, calls=[(lib, "nothing", args, "no-value"), (lib, "echo", [5])])
+        runs += 1
+        want = ["NOTHING[A] n=%d args=[%s]" % (len(args), ",".join(map(str, args))), "ECHO[A] n=1 args=[5]", "42", "after"]
+        if r["exit"] != 0 or r["stdout"] != want:
+            dev.append(("nothing(%r) then echo(5)" % args, "expected %r exit 0" % want, r))
     # every kind of value comes back unchanged
     for ins, text, shown in (("make_int", "5", "5"), ("make_byte", "0b101", "0b101"), ("make_bool", "true", "true"), ("make_str", "hey", "hey"),
                              ("make_float", "2.5", "2.5"), ("make_bigint", "123456789012", "123456789012")):
@@ -98,6 +108,20 @@ def real_suite(scratch, exe, libs):
     runs += 1
     if r["exit"] == 0 or r["panicked"] or "Could not open FFI Library" not in r["stderr"] or "after" in r["stdout"]:
         dev.append(("missing library after a successful call of the same symbol", "expected a run-time error naming the library", r))
+    # the library is opened under exactly the name given: a versioned name works, and a missing `x.dll` is an error even if `x.so` exists
+    ldir = os.path.join(scratch.dir, "ffi-named")
+    os.makedirs(ldir, exist_ok=True)
+    shutil.copy(lib, os.path.join(ldir, "libprobe.so.1"))
+    shutil.copy(lib, os.path.join(ldir, "plugin.so"))
+    r = real_call(scratch, exe, os.path.join(ldir, "libprobe.so.1"), "echo", [4])
+    runs += 1
+    want = ["ECHO[A] n=1 args=[4]", "42", "after"]
+    if r["exit"] != 0 or r["stdout"] != want:
+        dev.append(("echo in a library named libprobe.so.1", "expected %r exit 0" % want, r))
+    r = real_call(scratch, exe, os.path.join(ldir, "plugin.dll"), "echo", [4])
+    runs += 1
+    if r["exit"] == 0 or r["panicked"] or "Could not open FFI Library" not in r["stderr"] or "after" in r["stdout"] or any("ECHO" in l for l in r["stdout"]):
+        dev.append(("library plugin.dll missing while plugin.so exists", "expected a run-time error naming the library, no foreign call", r))
     r = real_call(scratch, exe, os.path.join(scratch.dir, "no-such-library.so"), "echo", [1])
     runs += 1
     if r["exit"] == 0 or r["panicked"] or "Could not open FFI Library" not in r["stderr"] or "after" in r["stdout"]:
@@ -199,7 +223,7 @@ def check(scratch, a, t0):
                          "validated on this run by %s REAL foreign calls through the real CLI into a dynamic library built from /verif/native/ffi_echo.rs (arguments echoed in order, value pushed, FFI error / missing symbol / missing library reported, nothing executed afterwards)" % info["real_runs"],
                          "std models used: " + ", ".join(sorted(set(sum(info["models"].values(), []))))],
         "functions_encoded": info["functions"],
-        "bounds": "operand stacks of 0..%d int values (all values); library and function names fixed literals; every outcome of opening the library, finding the symbol and of the foreign function itself is an arbitrary environment value.  The step that pushes the returned value / raises `FFI: <message>` lives inside Function::run's loop and is covered only by the real runs, not by the solver" % F.NMAX.get(a.tier, 3),
+        "bounds": "operand stacks of 0..%d int values (all values); the function name is a fixed literal, the dispatch kernel runs once per library name in %r (concrete names: plain, versioned, without extension, foreign extension); every outcome of opening the library, finding the symbol and of the foreign function itself is an arbitrary environment value.  The step that pushes the returned value / raises `FFI: <message>` lives inside Function::run's loop and is covered only by the real runs, not by the solver" % (F.NMAX.get(a.tier, 3), F.LIBNAMES),
         "solver_time_s": round(qs.solver_s, 2),
         "samples": qs.samples[:8] + new[:3],
         "new_violations": len(new),
